@@ -1,7 +1,8 @@
 #!/venv/bin/python
 """Run one generated case in-process with a full traceback: tools/onecase.py <PROP> <case-id> [tier] [seed]"""
 import importlib, json, os, random, sys, traceback
-sys.path.insert(0, '/verif')
+ROOT = os.path.dirname(os.path.dirname(os.path.abspath(__file__)))
+sys.path.insert(0, ROOT)
 from vz import env
 prop, cid = sys.argv[1], sys.argv[2]
 tier = sys.argv[3] if len(sys.argv) > 3 else 'quick'
@@ -11,7 +12,7 @@ env.make_pin(pin.file('pin'))
 if os.environ.get('_VZ_ONE') != '1':
     e = env.child_env(pin.file('pin'), {'VERIF_TIER': tier, '_VZ_ONE': '1'})
     import subprocess
-    rc = subprocess.run([env.PY] + sys.argv, env=e, cwd='/verif').returncode
+    rc = subprocess.run([env.PY] + sys.argv, env=e, cwd=ROOT).returncode
     pin.cleanup()
     sys.exit(rc)
 import faulthandler
